@@ -118,10 +118,22 @@ impl Profile {
                 ops_per_txn: 8,
                 ..base
             },
+            "crashsp" => Profile {
+                names: vec!["a", "b"],
+                multimaps: false,
+                w_catalog: 2,
+                w_savepoint: 35,
+                w_reader: 0,
+                w_nondurable: 25,
+                w_abort: 15,
+                w_reopen: 3,
+                ops_per_txn: 5,
+                ..base
+            },
             "pages" => Profile {
                 names: vec!["a", "b", "c"],
                 multimaps: true,
-                w_catalog: 6,
+                w_catalog: 3,
                 w_savepoint: 12,
                 w_reader: 10,
                 w_iter: 3,
@@ -156,6 +168,8 @@ pub struct Gen {
     open: BTreeMap<String, Ty>,
     known: BTreeMap<String, Ty>,
     pop: BTreeMap<String, BTreeSet<u32>>,
+    known_at_begin: BTreeMap<String, Ty>,
+    pop_at_begin: BTreeMap<String, BTreeSet<u32>>,
     readers: Vec<(String, BTreeMap<String, Ty>)>,
     sps: Vec<String>,
     psp: Vec<u64>,
@@ -181,6 +195,8 @@ impl Gen {
             open: BTreeMap::new(),
             known: BTreeMap::new(),
             pop: BTreeMap::new(),
+            known_at_begin: BTreeMap::new(),
+            pop_at_begin: BTreeMap::new(),
             readers: vec![],
             sps: vec![],
             psp: vec![],
@@ -582,6 +598,8 @@ impl Gen {
                     self.wtx = true;
                     self.wtx_ops = 0;
                     self.wtx_first = true;
+                    self.known_at_begin = self.known.clone();
+                    self.pop_at_begin = self.pop.clone();
                 }
                 "bw" => {
                     // writes are refused (latched): only a reopen helps
@@ -604,9 +622,9 @@ impl Gen {
                         self.queue.push_back(json!({"e": "acct"}));
                     }
                     if e == "abort" || !okr {
-                        // forget optimistic knowledge gained inside the transaction
-                        self.known.clear();
-                        self.pop.clear();
+                        // forget what was learnt inside the transaction
+                        self.known = self.known_at_begin.clone();
+                        self.pop = self.pop_at_begin.clone();
                     }
                 }
                 "open" if okr => {
